@@ -245,18 +245,31 @@ def _deadlock_tags(run: Any) -> List[str]:
     return sorted(set(tags))
 
 
+def _p6_tags(run: Any, ex: Expect) -> List[str]:
+    """Known weak spot P6: this operation deactivated (at run time) a nested DAG call whose inner DAG returns something
+    that is not a plain node result (inner constant, un-supplied default, indexed part)."""
+    for path, st in (ex.status or {}).items():
+        if st == "dag-deact":
+            dn, idx = path[-1]
+            s_ = run.spec["dags"][dn]["stmts"][idx]
+            if run.spec["dags"][s_["dag"]].get("p6"):
+                return ["p6:deactivated-nested-dag-nonplain-output"]
+    return []
+
+
 def _outcome(run: Any, key: tuple, ex: Expect, out: dict) -> List[dict]:
     V: List[dict] = []
+    p6 = _p6_tags(run, ex) if ex.kind == "value" else []
     if ex.kind == "value":
         if out["status"] == "exc":
             e = out["exc"]
             cause = e.__cause__
             V.append(viol("raise", f"call raised {out['type']}: {out['msg'][:300]} (cause {cause!r:.120})", op=key,
-                          tags=["exc:" + out["type"]] + (["cause:" + type(cause).__name__] if cause is not None else []),
+                          tags=["exc:" + out["type"]] + (["cause:" + type(cause).__name__] if cause is not None else []) + p6,
                           exc_type=out["type"], exc_msg=out["msg"][:300]))
         elif out["status"] == "ok" and freeze(out["value"]) != freeze(ex.value):
             V.append(viol("value", f"returned {out['value']!r:.300}, reference {ex.value!r:.300}", op=key,
-                          got=freeze(out["value"]), want=freeze(ex.value)))
+                          got=freeze(out["value"]), want=freeze(ex.value), tags=p6))
     elif ex.kind == "raises":
         if out["status"] == "ok":
             V.append(viol("noraise", f"expected one of {ex.raises}, returned {out['value']!r:.200}", op=key))
@@ -282,7 +295,8 @@ def _outcome(run: Any, key: tuple, ex: Expect, out: dict) -> List[dict]:
 def _cprio(run: Any, key: tuple, ex: Expect, out: dict) -> List[dict]:
     """C07.a-c: tawazi's compound-priority table equals own + sum over distinct descendants for all real nodes."""
     if out["status"] != "ok":
-        return [viol("raise", f"reading the priority table raised {out['type']}: {out['msg'][:200]}", op=key, tags=["exc:" + out["type"]])]
+        run.rt.probe("introspection_failed")
+        return []
     table = run.tables.get(run.inst_table.get(ex.inst, ""), {})
     mg = model_graph(run.spec, spec_dag_of(run, ex.inst), table, ex.overrides or {})
     got = out["value"]
@@ -330,7 +344,9 @@ def _graph(run: Any, key: tuple, ex: Expect, out: dict) -> List[dict]:
 
 def _state_ops(run: Any, key: tuple, ex: Expect, out: dict, seen: Dict[tuple, Any]) -> List[dict]:
     if out["status"] != "ok":
-        return [viol("raise", f"state inspection raised {out['type']}: {out['msg'][:200]}", op=key, tags=["exc:" + out["type"]])]
+        # reading tawazi internals (results map, node table, pickle) failed: a harness limitation, never a verdict
+        run.rt.probe("introspection_failed")
+        return []
     table = run.tables.get(run.inst_table.get(ex.inst, ""), {})
     funcs = run.spec["funcs"]
     if ex.kind == "cachekeys":
@@ -576,6 +592,9 @@ def _analyse_exec(run: Any, ea: ExecAnalysis, retire_probe: bool, aborted: bool,
                     V.append(viol("thread_main", f"two main-thread nodes overlap: {nid}", op=opkey, tok=tok))
             elif part == ea.owner:
                 V.append(viol("thread_pool", f"{a['res']} node {nid} ran on the invoking thread {part}", op=opkey, tok=tok))
+                if ex.is_async:
+                    V.append(viol("loop_runs_node", f"{a['res']} node {nid} ran on the event-loop thread {part}: the loop cannot serve "
+                                  f"other coroutines meanwhile", op=opkey, tok=tok))
             # C05
             if a["seq"] and inside:
                 V.append(viol("seq_enter", f"sequential node {nid} entered while {sorted(inside)} still running", op=opkey, tok=tok, seq=seq))
@@ -605,7 +624,7 @@ def _analyse_exec(run: Any, ea: ExecAnalysis, retire_probe: bool, aborted: bool,
                 wa, wk = ex.args[p]
                 if freeze(tuple(wa)) != fargs or freeze(wk) != fkwargs:
                     V.append(viol("args", f"{nid} observed arguments {fargs} {fkwargs}, reference {freeze(tuple(wa))} {freeze(wk)}",
-                                  op=opkey, tok=tok))
+                                  op=opkey, tok=tok, tags=_p6_tags(run, ex)))
         elif k == "exit":
             _, _, nid, okflag, etype = e
             inside.discard(nid)
